@@ -77,10 +77,36 @@ def handler_class(h: ast.ExceptHandler):
 def rollback_fact(fn: ast.FunctionDef, inner_call: str):
     """The try around `inner_call` inside `fn`: which class the handler catches, whether it
     restores all four memos from the snapshot and re-raises; and whether the False path
-    restores too."""
-    fact = {"catch": "unknown", "restores_four": False, "reraises": False, "false_path_restores": False}
+    restores too. The snapshot may be four `x_bak = x.copy()` assignments under any names or one
+    tuple of four `.copy()` calls restored with `set_shape_memo(*backup)`."""
+    fact = {"catch": "unknown", "restores_four": False, "reraises": False, "false_path_restores": False, "snapshots": 0}
     if fn is None:
         return fact
+    copy_of = {}    # local name -> source expression it is a .copy() of
+    tuple_of = {}   # local name -> list of source expressions, for name = (a.copy(), b.copy(), ...)
+
+    def copied(node):
+        if isinstance(node, ast.Call) and isinstance(node.func, ast.Attribute) and node.func.attr == "copy" and not node.args:
+            return ast.unparse(node.func.value)
+        return None
+
+    for node in ast.walk(fn):
+        if isinstance(node, ast.Assign) and len(node.targets) == 1 and isinstance(node.targets[0], ast.Name):
+            c = copied(node.value)
+            if c is not None:
+                copy_of[node.targets[0].id] = c
+            elif isinstance(node.value, ast.Tuple) and node.value.elts and all(copied(e) is not None for e in node.value.elts):
+                tuple_of[node.targets[0].id] = [copied(e) for e in node.value.elts]
+
+    def restored(call):
+        """the distinct dictionaries a set_shape_memo call puts back from copies"""
+        if len(call.args) == 1 and isinstance(call.args[0], ast.Starred) and isinstance(call.args[0].value, ast.Name):
+            return set(tuple_of.get(call.args[0].value.id, []))
+        if all(isinstance(a, ast.Name) and a.id in copy_of for a in call.args):
+            return {copy_of[a.id] for a in call.args}
+        return set()
+
+    fact["snapshots"] = max(len(set(copy_of.values())), max((len(set(v)) for v in tuple_of.values()), default=0))
     for node in ast.walk(fn):
         if isinstance(node, ast.Try) and calls_in(node.body, inner_call):
             for h in node.handlers:
@@ -88,28 +114,37 @@ def rollback_fact(fn: ast.FunctionDef, inner_call: str):
                 sets = calls_in(h.body, "set_shape_memo")
                 if sets:
                     fact["catch"] = {"Exception": "exceptionOnly", "BaseException": "baseException"}.get(cls, "unknown")
-                    fact["restores_four"] = all(
-                        len(c.args) == 4 and all(isinstance(a, ast.Name) and a.id.endswith("_bak") for a in c.args)
-                        for c in sets
-                    )
+                    fact["restores_four"] = all(len(restored(c)) == 4 for c in sets)
                     fact["reraises"] = any(isinstance(s, ast.Raise) and s.exc is None for s in h.body)
             break
-    # False path: an `if` after the try whose else/then branch calls set_shape_memo with 4 baks
+    # False path: an `if` (outside the handler) one of whose branches puts all four back; the branch returns, or
+    # the statement after the `if` does
+    in_handler = set()
     for node in ast.walk(fn):
-        if isinstance(node, ast.If):
+        if isinstance(node, ast.ExceptHandler):
+            in_handler.update(id(n) for n in ast.walk(node))
+    for node in ast.walk(fn):
+        if isinstance(node, ast.If) and id(node) not in in_handler:
             for branch in (node.body, node.orelse):
-                sets = calls_in(branch, "set_shape_memo")
-                rets = [s for s in branch if isinstance(s, ast.Return)]
-                if sets and rets and all(len(c.args) == 4 for c in sets):
+                sets = [c for s in branch for c in calls_in([s], "set_shape_memo") if not isinstance(s, (ast.If, ast.Try, ast.For, ast.While, ast.With))]
+                if sets and all(len(restored(c)) == 4 for c in sets):
                     fact["false_path_restores"] = True
-    # snapshot copies
-    copies = 0
-    for node in ast.walk(fn):
-        if isinstance(node, ast.Assign) and len(node.targets) == 1 and isinstance(node.targets[0], ast.Name):
-            if node.targets[0].id.endswith("_bak") and call_name(node.value) == "copy":
-                copies += 1
-    fact["snapshots"] = copies
     return fact
+
+
+def walk_with_helpers(fn, tree):
+    """the nodes of `fn` and of every module-level function it calls by name (transitively)"""
+    helpers = {n.name: n for n in tree.body if isinstance(n, ast.FunctionDef)}
+    todo, done = [fn], []
+    while todo:
+        f = todo.pop()
+        if any(f is g for g in done):
+            continue
+        done.append(f)
+        for node in ast.walk(f):
+            yield node
+            if isinstance(node, ast.Call) and isinstance(node.func, ast.Name) and node.func.id in helpers:
+                todo.append(helpers[node.func.id])
 
 
 def storage_kinds():
@@ -182,14 +217,22 @@ def names_in(node):
     }
 
 
-def guarded_by_structure(call, root):
-    """is `call` (a Call node) inside an `if cls.structure is not None:` within root?"""
+def guarded_by_structure(call, root, fn=None):
+    """is `call` (a Call node) only reached when `cls.structure is not None`: inside such an `if` within
+    root, or - given the enclosing function - after a top-level `if cls.structure is None: ... return`?"""
     for node in ast.walk(root):
-        if isinstance(node, ast.If) and "structure" in names_in(node.test):
+        if isinstance(node, ast.If) and "structure" in names_in(node.test) and "is not None" in ast.unparse(node.test):
             for ch in node.body:
                 for sub in ast.walk(ch):
                     if sub is call:
                         return True
+    if fn is not None:
+        for i, st in enumerate(fn.body):
+            if isinstance(st, ast.If) and ast.unparse(st.test) == "cls.structure is None" and st.body and isinstance(st.body[-1], ast.Return) and not st.orelse:
+                for later in fn.body[i + 1:]:
+                    for sub in ast.walk(later):
+                        if sub is call:
+                            return True
     return False
 
 
@@ -225,9 +268,9 @@ def pytree_skel(facts):
             sk["treepathInFinally"] = bool(fin)
             inner = calls_in(node.body, "clear_treepath_memo")
             allc = fin + inner
-            if allc and all(guarded_by_structure(c, node) for c in allc):
+            if allc and all(guarded_by_structure(c, node, chk) for c in allc):
                 sk["treepathGuarded"] = True
-            elif allc and not any(guarded_by_structure(c, node) for c in allc):
+            elif allc and not any(guarded_by_structure(c, node, chk) for c in allc):
                 sk["treepathGuarded"] = False
     # flatten try not found at all
     if sk["flattenInFinally"] == "unknown" and calls_in([chk], "set_treeflatten_memo"):
@@ -463,9 +506,8 @@ def dtype_tables(facts):
     fn = find_def(tree, "_MetaAbstractArray", "__instancecheck_str__")
     canonical = False
     if fn is not None:
-        for node in ast.walk(fn):
+        for node in walk_with_helpers(fn, tree):
             if isinstance(node, ast.If):
-                tests = ast.dump(node.test)
                 if "np" in names_in(node.test) and "kind" in names_in(node.test) and "dtype" in names_in(node.test):
                     for st in node.body:
                         if isinstance(st, ast.Assign) and isinstance(st.value, ast.Attribute) and st.value.attr == "name":
@@ -509,6 +551,96 @@ EXTRA_RENDERERS.append(render_dtypes)
 # --------------------------------------------------------------------------- import hook facts (C10 / C11 / C18)
 
 
+def import_rule(vm):
+    """`visit_Module`: where `import jaxtyping` goes. The loop body is run abstractly on the five kinds of statement it can
+    tell apart (`from __future__ import`, another `from` import, an expression statement holding a constant, another
+    expression statement, anything else); the rule is "before-first-non-prologue" when the first two... the first and the
+    third `continue` and the others insert at the loop index and `break`."""
+    loops = [n for n in vm.body if isinstance(n, ast.For)]
+    if len(loops) != 1:
+        return "unknown"
+    lp = loops[0]
+    if not (isinstance(lp.iter, ast.Call) and call_name(lp.iter) == "enumerate" and len(lp.iter.args) == 1 and ast.unparse(lp.iter.args[0]) == "node.body"
+            and isinstance(lp.target, ast.Tuple) and len(lp.target.elts) == 2 and all(isinstance(e, ast.Name) for e in lp.target.elts)) or lp.orelse:
+        return "unknown"
+    idx, var = lp.target.elts[0].id, lp.target.elts[1].id
+    KINDS = {"future": ("ImportFrom", "__future__", None), "from": ("ImportFrom", "os", None), "doc": ("Expr", None, "Constant"),
+             "expr": ("Expr", None, "Call"), "other": ("Assign", None, "Call")}
+
+    class Unknown(Exception):
+        pass
+
+    def ev(e, kind, env):
+        cls, module, valcls = KINDS[kind]
+        if isinstance(e, ast.Name) and e.id in env:
+            return env[e.id]
+        if isinstance(e, ast.BoolOp):
+            for v in e.values:   # short-circuit, as Python does (`child.module` is only read on a `from` import)
+                r = ev(v, kind, env)
+                if r is not True and r is not False:
+                    raise Unknown
+                if r != isinstance(e.op, ast.And):
+                    return r
+            return isinstance(e.op, ast.And)
+        if isinstance(e, ast.UnaryOp) and isinstance(e.op, ast.Not):
+            return not ev(e.operand, kind, env)
+        if call_name(e) == "isinstance" and len(e.args) == 2 and ast.unparse(e.args[1]).startswith("ast."):
+            want = ast.unparse(e.args[1])[4:]
+            if ast.unparse(e.args[0]) == var:
+                return cls == want
+            if ast.unparse(e.args[0]) == var + ".value" and valcls is not None:
+                return valcls == want
+            raise Unknown
+        if isinstance(e, ast.Compare) and len(e.ops) == 1 and isinstance(e.ops[0], (ast.Eq, ast.NotEq)) and ast.unparse(e.left) == var + ".module" \
+                and isinstance(e.comparators[0], ast.Constant) and module is not None:
+            r = module == e.comparators[0].value
+            return r if isinstance(e.ops[0], ast.Eq) else not r
+        raise Unknown
+
+    def run(stmts, kind, env, acts):
+        for st in stmts:
+            if isinstance(st, ast.Continue):
+                return "continue"
+            if isinstance(st, ast.Break):
+                return "break"
+            if isinstance(st, ast.If):
+                r = run(st.body if ev(st.test, kind, env) else st.orelse, kind, env, acts)
+                if r:
+                    return r
+            elif isinstance(st, ast.Assign) and len(st.targets) == 1 and isinstance(st.targets[0], ast.Name):
+                try:
+                    env[st.targets[0].id] = ev(st.value, kind, env)
+                except Unknown:
+                    env[st.targets[0].id] = ("expr", ast.unparse(st.value))
+            elif isinstance(st, ast.Expr) and isinstance(st.value, ast.Call) and ast.unparse(st.value.func) == "node.body.insert" and len(st.value.args) == 2:
+                a0, a1 = st.value.args
+                what = env.get(a1.id, ("expr", ""))[1] if isinstance(a1, ast.Name) and isinstance(env.get(a1.id), tuple) else ast.unparse(a1)
+                acts.append(("insert", ast.unparse(a0), "ast.Import" in what and "jaxtyping" in what))
+            elif isinstance(st, ast.Expr) and isinstance(st.value, ast.Constant):
+                pass
+            else:
+                raise Unknown
+        return None
+
+    out = {}
+    try:
+        for kind in KINDS:
+            acts = []
+            r = run(lp.body, kind, {}, acts)
+            out[kind] = (r, tuple(acts))
+    except (Unknown, TypeError):
+        return "unknown"
+    skip = ("continue", ())
+    put = ("break", (("insert", idx, True),))
+    # a body that simply ends (no `continue`) also moves on to the next statement
+    norm = {k: (("continue", v[1]) if v[0] is None else v) for k, v in out.items()}
+    if norm["future"] == skip and norm["doc"] == skip and all(norm[k] == put for k in ("from", "expr", "other")):
+        return "before-first-non-prologue"
+    if all(norm[k] == put for k in KINDS):
+        return "at-top"
+    return "unknown"
+
+
 def hook_facts(facts):
     tree = parse("_import_hook.py")
     h = {
@@ -534,6 +666,14 @@ def hook_facts(facts):
                     else:
                         rule = "unknown"
             copies = any(call_name(c) == "copy_location" and len(c.args) == 2 and isinstance(c.args[1], ast.Name) and c.args[1].id == "node" for c in ast.walk(fn))
+            # ... or in a method of the transformer that is handed `node`
+            for c in ast.walk(fn):
+                if isinstance(c, ast.Call) and isinstance(c.func, ast.Attribute) and isinstance(c.func.value, ast.Name) and c.func.value.id == "self" \
+                        and len(c.args) == 1 and isinstance(c.args[0], ast.Name) and c.args[0].id == "node":
+                    m = find_def(tr, c.func.attr)
+                    if m is not None and len(m.args.args) == 2:
+                        par = m.args.args[1].arg
+                        copies = copies or any(call_name(x) == "copy_location" and len(x.args) == 2 and isinstance(x.args[1], ast.Name) and x.args[1].id == par for x in ast.walk(m))
             return rule, copies
 
         d, c1 = deco_rule(find_def(tr, "visit_FunctionDef"))
@@ -541,27 +681,17 @@ def hook_facts(facts):
         h["defDecorator"], h["classDecorator"], h["copiesLocation"] = d, k, c1 and c2
         vm = find_def(tr, "visit_Module")
         if vm is not None:
-            loops = [n for n in vm.body if isinstance(n, ast.For)]
-            if len(loops) == 1:
-                lp = loops[0]
-                body = lp.body
-                ok = len(body) == 1 and isinstance(body[0], ast.If)
-                if ok:
-                    i1 = body[0]
-                    t1 = ast.dump(i1.test)
-                    ok = "ImportFrom" in t1 and "__future__" in t1 and any(isinstance(x, ast.Continue) for x in i1.body)
-                    i2 = i1.orelse[0] if len(i1.orelse) == 1 and isinstance(i1.orelse[0], ast.If) else None
-                    ok = ok and i2 is not None and "Expr" in ast.dump(i2.test) and "Constant" in ast.dump(i2.test) and any(isinstance(x, ast.Continue) for x in i2.body)
-                    if ok:
-                        els = i2.orelse
-                        ins = [c for st in els for c in ast.walk(st) if isinstance(c, ast.Call) and isinstance(c.func, ast.Attribute) and c.func.attr == "insert"]
-                        ok = len(ins) == 1 and isinstance(ins[0].args[0], ast.Name) and ins[0].args[0].id == "i" and "jaxtyping" in ast.dump(ins[0].args[1]) and any(isinstance(x, ast.Break) for x in els)
-                        ok = ok and isinstance(lp.iter, ast.Call) and call_name(lp.iter) == "enumerate" and not lp.orelse
-                if ok:
-                    h["importRule"] = "before-first-non-prologue"
+            h["importRule"] = import_rule(vm)
     fi = find_def(tree, "_JaxtypingFinder", "should_instrument")
     if fi is not None:
         tests = [n.test for n in ast.walk(fi) if isinstance(n, ast.If)]
+        if not tests:
+            # `return any(<test> for module in self.modules)`
+            gens = [n for n in ast.walk(fi) if isinstance(n, ast.Return) and call_name(n.value) == "any" and len(n.value.args) == 1
+                    and isinstance(n.value.args[0], (ast.GeneratorExp, ast.ListComp)) and len(n.value.args[0].generators) == 1
+                    and not n.value.args[0].generators[0].ifs and ast.unparse(n.value.args[0].generators[0].iter) == "self.modules"]
+            if len(gens) == 1 and len([n for n in ast.walk(fi) if isinstance(n, ast.Return)]) == 1:
+                tests = [gens[0].value.args[0].elt]
         if len(tests) == 1 and isinstance(tests[0], ast.BoolOp) and isinstance(tests[0].op, ast.Or) and len(tests[0].values) == 2:
             a, b = tests[0].values
             eq = isinstance(a, ast.Compare) and len(a.ops) == 1 and isinstance(a.ops[0], ast.Eq)
@@ -577,8 +707,14 @@ def hook_facts(facts):
             h["shouldInstrument"] = "eq"
     fs = find_def(tree, "_JaxtypingFinder", "find_spec")
     if fs is not None:
-        h["onlySourceLoaders"] = any(call_name(c) == "isinstance" and len(c.args) == 2 and "SourceFileLoader" in ast.dump(c.args[1]) and "loader" in ast.dump(c.args[0]) for c in ast.walk(fs)) and \
-            any(isinstance(n, ast.If) and call_name(n.test) == "should_instrument" for n in ast.walk(fs))
+        loader_names = {"spec.loader"} | {n.targets[0].id for n in ast.walk(fs) if isinstance(n, ast.Assign) and len(n.targets) == 1
+                                          and isinstance(n.targets[0], ast.Name) and ast.unparse(n.value) == "spec.loader"}
+
+        def is_si(t):
+            return call_name(t) == "should_instrument" or (isinstance(t, ast.UnaryOp) and isinstance(t.op, ast.Not) and call_name(t.operand) == "should_instrument")
+
+        h["onlySourceLoaders"] = any(call_name(c) == "isinstance" and len(c.args) == 2 and ast.unparse(c.args[1]) == "SourceFileLoader" and ast.unparse(c.args[0]) in loader_names for c in ast.walk(fs)) and \
+            any(isinstance(n, ast.If) and is_si(n.test) for n in ast.walk(fs))
     ih = find_def(tree, "install_import_hook")
     if ih is not None:
         h["insertsAtFront"] = any(isinstance(c, ast.Call) and isinstance(c.func, ast.Attribute) and c.func.attr == "insert" and "meta_path" in ast.dump(c.func.value) and isinstance(c.args[0], ast.Constant) and c.args[0].value == 0 for c in ast.walk(ih))
@@ -648,6 +784,40 @@ def _src(node):
         return "?"
 
 
+def scalar_table(helper):
+    """`def f(t): if t is X [or t is Y]: return "<prefix>" ... return None` -> [(X, prefix), ...] in source order, or None"""
+    if len(helper.args.args) != 1:
+        return None
+    a = helper.args.args[0].arg
+    rows = []
+    body = [s for s in helper.body if not (isinstance(s, ast.Expr) and isinstance(s.value, ast.Constant))]
+    stmts = []
+    for st in body:       # flatten an if/elif chain into a sequence of ifs
+        while isinstance(st, ast.If):
+            stmts.append(st)
+            if len(st.orelse) == 1:
+                st = st.orelse[0]
+            elif not st.orelse:
+                st = None
+            else:
+                return None
+        if st is not None:
+            stmts.append(st)
+    if not stmts or not (isinstance(stmts[-1], ast.Return) and (stmts[-1].value is None or _src(stmts[-1].value) == "None")):
+        return None
+    for st in stmts[:-1]:
+        if not isinstance(st, ast.If) or len(st.body) != 1 or not isinstance(st.body[0], ast.Return) or not isinstance(st.body[0].value, ast.Constant) \
+                or not isinstance(st.body[0].value.value, str):
+            return None
+        tests = st.test.values if isinstance(st.test, ast.BoolOp) and isinstance(st.test.op, ast.Or) else [st.test]
+        for t in tests:
+            if isinstance(t, ast.Compare) and len(t.ops) == 1 and isinstance(t.ops[0], ast.Is) and isinstance(t.left, ast.Name) and t.left.id == a:
+                rows.append((_src(t.comparators[0]), st.body[0].value.value))
+            else:
+                return None
+    return rows
+
+
 def make_facts(facts):
     tree = parse("_array_types.py")
     mk = {"scalarLadder": [], "nestDimsOuterFirst": False, "nestStrOuterFirst": False, "nestVariadicShift": False,
@@ -676,6 +846,25 @@ def make_facts(facts):
                             and len(inner.orelse) == 1 and isinstance(inner.orelse[0], ast.Return) and _src(inner.orelse[0].value) == "_not_made":
                         for ty in tys:
                             mk["scalarLadder"].append((ty, c.args[0].value))
+                # the table form: `p = <helper>(array_type)`; `if p is not None: if _check_scalar(p, dtypes, dims): return array_type
+                # else: return _not_made`, where the helper is a chain of `if array_type is X [or ...]: return "<prefix>"` ending
+                # in `return None`
+                t = node.test
+                if isinstance(t, ast.Compare) and len(t.ops) == 1 and isinstance(t.ops[0], ast.IsNot) and isinstance(t.left, ast.Name) \
+                        and _src(t.comparators[0]) == "None" and len(node.body) == 1 and isinstance(node.body[0], ast.If):
+                    pv = t.left.id
+                    inner = node.body[0]
+                    c = inner.test
+                    asg = [a for a in ast.walk(fn) if isinstance(a, ast.Assign) and len(a.targets) == 1 and _src(a.targets[0]) == pv]
+                    if call_name(c) == "_check_scalar" and [_src(a) for a in c.args] == [pv, "dtypes", "dims"] \
+                            and len(inner.body) == 1 and isinstance(inner.body[0], ast.Return) and _src(inner.body[0].value) == "array_type" \
+                            and len(inner.orelse) == 1 and isinstance(inner.orelse[0], ast.Return) and _src(inner.orelse[0].value) == "_not_made" \
+                            and len(asg) == 1 and isinstance(asg[0].value, ast.Call) and isinstance(asg[0].value.func, ast.Name) \
+                            and [_src(a) for a in asg[0].value.args] == ["array_type"]:
+                        helper = find_def(tree, asg[0].value.func.id)
+                        rows = scalar_table(helper) if helper is not None else None
+                        if rows is not None:
+                            mk["scalarLadder"].extend(rows)
             if isinstance(node, ast.Assign) and len(node.targets) == 1:
                 tgt, val = _src(node.targets[0]), _src(node.value)
                 if tgt == "dims" and val == "dims + array_type.dims":
@@ -810,21 +999,18 @@ EXTRA_RENDERERS.append(render_make)
 def obj_attr_facts(facts):
     tree = parse("_array_types.py")
     attrs, bare, fns = set(), set(), []
-    for name in ("__instancecheck__", "__instancecheck_str__", "_check_shape"):
-        fn = find_def(tree, "_MetaAbstractArray", name)
-        if fn is None:
-            bare.add("MISSING:" + name)
-            continue
-        fns.append(name)
-        if "obj" not in [a.arg for a in fn.args.args]:
-            bare.add("NO-OBJ-PARAM:" + name)
-            continue
+    helpers = {n.name: n for n in tree.body if isinstance(n, ast.FunctionDef)}
+    seen = set()
+
+    def scan(fn, var):
+        """every use of the local `var` (the checked object) inside `fn`; a module-level helper it is handed to as a
+        plain positional argument is scanned in turn, with the matching parameter as the object"""
         parents = {}
         for node in ast.walk(fn):
             for ch in ast.iter_child_nodes(node):
                 parents[ch] = node
         for node in ast.walk(fn):
-            if isinstance(node, ast.Name) and node.id == "obj":
+            if isinstance(node, ast.Name) and node.id == var:
                 par = parents.get(node)
                 if isinstance(node.ctx, ast.Store):
                     bare.add("REBOUND")
@@ -838,9 +1024,28 @@ def obj_attr_facts(facts):
                             attrs.add(par.args[1].value)
                         else:
                             bare.add("hasattr:dynamic")
-                    bare.add(cn or "CALL:?")
+                    h = helpers.get(cn) if isinstance(par.func, ast.Name) else None
+                    if h is not None and cn != "_check_dims" and not any(isinstance(a, ast.Starred) for a in par.args) \
+                            and par.args.index(node) < len(h.args.args) and not h.args.vararg:
+                        key = (cn, par.args.index(node))
+                        if key not in seen:
+                            seen.add(key)
+                            scan(h, h.args.args[par.args.index(node)].arg)
+                    else:
+                        bare.add(cn or "CALL:?")
                 else:
                     bare.add("OTHER:" + type(par).__name__)
+
+    for name in ("__instancecheck__", "__instancecheck_str__", "_check_shape"):
+        fn = find_def(tree, "_MetaAbstractArray", name)
+        if fn is None:
+            bare.add("MISSING:" + name)
+            continue
+        fns.append(name)
+        if "obj" not in [a.arg for a in fn.args.args]:
+            bare.add("NO-OBJ-PARAM:" + name)
+            continue
+        scan(fn, "obj")
     # _check_dims receives sizes, never the object
     cd = find_def(tree, "_check_dims")
     facts["obj_attrs"] = {"attrs": sorted(attrs), "bare": sorted(bare), "functions": fns,
